@@ -220,6 +220,7 @@ func TestC20(t *testing.T) {
 	ok := t.Run("inproc", func(t *testing.T) {
 		pr := openProgress(sh)
 		n := 0
+		filter := os.Getenv("C20_FILTER") // development: restrict to matching "file role kind pos"
 		var timing map[string]time.Duration
 		timingN := map[string]int{}
 		if os.Getenv("C20_TIMING") != "" {
@@ -232,6 +233,9 @@ func TestC20(t *testing.T) {
 			}()
 		}
 		Enumerate(corpus, func(i int64) bool { return sel(i) || binSel(i) }, func(m *Mutant) bool {
+			if filter != "" && !strings.Contains(m.Triple.File+" "+m.Role+" "+m.Kind+" "+m.Pos, filter) {
+				return true
+			}
 			c := caseOf(m)
 			if binSel(m.Index) {
 				binSample = append(binSample, c)
